@@ -47,6 +47,8 @@ def generate(tier, rng):
                         e.extra['dvis'] = 2
                         # an EMPTY vis() is an override too (private): no IntoDiscriminant impl
                         attrs.append('vis()' if k % 12 == 3 else ('vis(pub(super))' if k % 12 == 9 else 'vis(pub(crate))'))
+                        if k % 12 == 3:
+                            e.extra['no_home'] = True   # the private mirror must stay nameable by the harness functions
                     if mode in (0, 2, 4):
                         attrs.append('allow(dead_code, unused_variables)')
                         attrs.append('derive(Hash, PartialOrd, Ord,)' if (k // 6) % 2 else 'derive(Hash, PartialOrd, Ord)')
@@ -128,7 +130,7 @@ def _strip(s):
 
 D_ITEMS = [  # (source text, model item)
     ('derive(Hash)', ('der', ['Hash'])), ('derive(PartialOrd, Ord)', ('der', ['PartialOrd', 'Ord'])), ('derive(strum::EnumIter,)', ('der', ['strum::EnumIter'])),
-    ('derive()', ('der', [])), ('derive(::core::hash::Hash, Default)', ('der', ['::core::hash::Hash', 'Default'])),
+    ('derive()', ('der', [])), ('derive(Display, EnumIter)', ('der', ['Display', 'EnumIter'])), ('derive(EnumString)', ('der', ['EnumString'])), ('derive(::core::hash::Hash, Default)', ('der', ['::core::hash::Hash', 'Default'])),
     ('name(Kind)', ('nam', 'Kind')), ('name(r#type)', ('nam', 'r#type')), ('name(Other)', ('nam', 'Other')),
     ('vis(pub)', ('vis', 'pub')), ('vis(pub(crate))', ('vis', 'pub(crate)')), ('vis()', ('vis', '')), ('vis(pub(super))', ('vis', 'pub(super)')),
     ('vis(pub(in crate::a))', ('vis', 'pub(incrate::a)')),
@@ -229,6 +231,12 @@ def header_stage(res, tier, rng):
                 va.insert(rng.randrange(len(va) + 1), rng.choice(V_BAD))
             variants.append(va)
         src = []
+        # attributes of the SOURCE enum that are none of the mirror's business (only `repr` is carried over), and a crate override
+        # (it must not touch the requested derive paths: a bare `Display` is whatever the user has in scope)
+        for extra in ('#[non_exhaustive]', '#[allow(dead_code)]', '#[doc = "top"]', '#[must_use]', '#[cfg_attr(all(), allow(unused))]', '#[strum(crate = "my::strum")]',
+                      '#[strum(serialize_all = "snake_case")]', '#[derive(Debug)]', '#[deprecated]'):
+            if rng.random() < 0.15:
+                src.append(extra)
         rl = list(reprs)
         for g in groups:
             src.append('#[strum_discriminants(%s)]' % ', '.join(t for t, _ in g))
